@@ -270,7 +270,7 @@ func grGenWith(t *rapid.T, version string, minEvents, maxEvents int, opts grOpts
 		users = users.with(grUsers[1], jnum(int64(rapid.SampledFrom([]int{50, 100}).Draw(t, "aliceLvl"))))
 	}
 	if rapid.IntRange(0, 4).Draw(t, "initialPL") > 0 {
-		r.add(len(r.Events)-1, "m.room.power_levels", grUsers[0], raSK(""), jobj("users", users, "users_default", jnum(0), "events_default", jnum(0), "state_default", jnum(int64(rapid.SampledFrom([]int{0, 50}).Draw(t, "sd"))), "ban", jnum(50), "kick", jnum(50), "invite", jnum(0)), 1, 0)
+		r.add(len(r.Events)-1, "m.room.power_levels", grUsers[0], raSK(""), jobj("users", users, "users_default", jnum(int64(rapid.SampledFrom([]int{0, 0, 0, 25, 40, 50}).Draw(t, "usersDefault"))), "events_default", jnum(0), "state_default", jnum(int64(rapid.SampledFrom([]int{0, 50}).Draw(t, "sd"))), "ban", jnum(50), "kick", jnum(50), "invite", jnum(0)), 1, 0)
 	}
 	r.add(len(r.Events)-1, "m.room.join_rules", grUsers[0], raSK(""), jobj("join_rule", jstr(rapid.SampledFrom([]string{"public", "public", "invite", "knock", "restricted"}).Draw(t, "jr0"))), 1, 0)
 	if opts.PLHeavy {
@@ -339,13 +339,14 @@ func grGenWith(t *rapid.T, version string, minEvents, maxEvents int, opts grOpts
 				us = jv{K: 'o'}
 			}
 			who := rapid.SampledFrom(grUsers[1:]).Draw(t, "plWho")
-			lvl := int64(rapid.SampledFrom([]int{0, 25, 50, 50, 100}).Draw(t, "plLvl"))
+			// (the last two: the edges of the integer range events may carry)
+			lvl := rapid.SampledFrom([]int64{0, 25, 50, 50, 100, 0, 25, 50, 50, 100, 30, 30, -1, -1, 9007199254740991, -9007199254740991}).Draw(t, "plLvl")
 			if !(tr.Creators && who == grUsers[1] && strings.Contains(jcanon(r.Events[0].Tree), "additional_creators")) {
 				us = us.with(who, jnum(lvl))
 			}
 			cur = cur.with("users", us)
 			if rapid.IntRange(0, 3).Draw(t, "plThreshold") == 0 {
-				cur = cur.with(rapid.SampledFrom([]string{"ban", "kick", "invite", "state_default", "events_default"}).Draw(t, "plKey"), jnum(int64(rapid.SampledFrom([]int{0, 50, 100}).Draw(t, "plVal"))))
+				cur = cur.with(rapid.SampledFrom([]string{"ban", "kick", "invite", "state_default", "events_default", "users_default", "users_default"}).Draw(t, "plKey"), jnum(int64(rapid.SampledFrom([]int{0, 50, 100, 25, 40}).Draw(t, "plVal"))))
 			}
 			typ, sk, content = "m.room.power_levels", raSK(""), cur
 		case 10:
